@@ -3,3 +3,4 @@ import Juniper.Props.C04
 import Juniper.Props.C01
 import Juniper.Props.C02
 import Juniper.Props.C03
+import Juniper.Props.C03Slots
